@@ -10,8 +10,9 @@ VARIABLES pi,    \* program index
           env,   \* heap address of the current scope
           heap,  \* sequence of records: scopes and closures (address = index)
           out,   \* observable events
+          feat,  \* ghost: semantic events this run went through (attribution of known findings)
           st, steps
-vars == <<pi, ctl, k, env, heap, out, st, steps>>
+vars == <<pi, ctl, k, env, heap, out, feat, st, steps>>
 Nd(n) == Progs[pi].nodes[n]
 MaxSteps == 4000
 
@@ -168,10 +169,70 @@ SplitAtGenRet(kk, acc) == IF kk = <<>> THEN [found |-> FALSE, seg |-> acc, fr |-
                           ELSE IF Head(kk).f = "genret" THEN [found |-> TRUE, seg |-> acc, fr |-> Head(kk), rest |-> Tail(kk)]
                           ELSE SplitAtGenRet(Tail(kk), Append(acc, Head(kk)))
 
+\* deep snapshot of a value for the observable trace (the heap keeps changing after the log)
+RECURSIVE Snap(_, _, _)
+Snap(h, v, d) ==
+  IF v.t # "ref" THEN v
+  ELSE LET o == h[v.a] IN
+       IF o.k = "gen" THEN [t |-> "gen"]
+       ELSE IF d = 0 THEN [t |-> "deep"]
+       ELSE IF o.k = "arr" THEN [t |-> "arr", e |-> [i \in 1..Len(o.e) |-> Snap(h, o.e[i], d - 1)]]
+       ELSE [t |-> "obj", ks |-> o.ks, vs |-> [i \in 1..Len(o.vs) |-> Snap(h, o.vs[i], d - 1)]]
+
+\* ---------------- ghost features: which semantic situations did this step go through?
+RelOps == {"<", ">", "<=", ">="}
+LoopFrames == {"wtest", "wbody", "forofB", "forofN"}
+\* frames of the current function activation only
+RECURSIVE FnFrames(_)
+FnFrames(kk) == IF kk = <<>> \/ Head(kk).f \in {"callret", "genret"} THEN <<>> ELSE <<Head(kk)>> \o FnFrames(Tail(kk))
+\* a loop that sits inside a try that sits inside another loop (same function)
+LoopInTryInLoop(rest) == LET fs == FnFrames(rest) IN
+   \E i \in 1..Len(fs) : fs[i].f \in {"try", "catch"} /\ \E j \in (i + 1)..Len(fs) : fs[j].f \in LoopFrames
+StepFeat ==
+  IF ctl.m = "ret" /\ k # <<>> THEN
+    LET f == Head(k)  c == ctl.c IN
+    (IF f.f = "binR" /\ c.c = "normal" THEN
+        LET op == Nd(f.n).op  pa == ToPrim(f.l)  pb == ToPrim(c.v) IN
+          (IF op \in RelOps /\ (pa.t = "str" \/ pb.t = "str") THEN {"rel_str"} ELSE {})
+          \cup (IF op \in RelOps /\ (~IsPrim(f.l) \/ ~IsPrim(c.v)) THEN {"rel_obj"} ELSE {})
+          \cup (IF op \in {"==", "!="} /\ (IsPrim(f.l) # IsPrim(c.v)) THEN {"eq_obj_prim"} ELSE {})
+          \cup (IF op \in {"+", "-", "*", "%"} /\ (~IsPrim(f.l) \/ ~IsPrim(c.v)) THEN {"arith_obj"} ELSE {})
+     ELSE {})
+    \cup (IF f.f = "popenv" /\ c.c \in {"break", "continue"} THEN {"brk_scope"} ELSE {})
+    \cup (IF f.f = "catch" /\ c.c = "normal" /\ Nd(f.n).c # 0 THEN {"tcf_catch_normal"} ELSE {})
+    \cup (IF f.f \in {"try", "catch"} /\ c.c \in {"break", "continue", "return"} /\ Nd(f.n).c # 0 THEN {"fin_abrupt"} ELSE {})
+    \cup (IF f.f = "fin" /\ c.c # "normal" THEN {"fin_override"} ELSE {})
+    \cup (IF f.f = "setmB" /\ c.c = "normal" /\ f.base.t \notin {"ref", "fun", "err", "undef", "null"} THEN {"set_on_prim"} ELSE {})
+    \cup (IF f.f = "label" /\ c.c = "continue" THEN {"continue_thru_label"} ELSE {})
+    \cup (IF f.f = "label" /\ c.c \in {"break", "continue"} /\ c.l = "" THEN {"unlabelled_thru_label"} ELSE {})
+    \cup (IF f.f = "member" /\ c.c = "normal" /\ c.v.t \in {"str", "num", "nan", "inf", "nzero", "bool"} THEN
+             (IF c.v.t = "str" /\ f.key = LengthKey THEN {}
+              ELSE IF c.v.t = "str" /\ IdxOfKey(f.key) >= 0 THEN {"str_index_strkey"} ELSE {"prim_member"})
+          ELSE {})
+    \cup (IF f.f = "indexB" /\ c.c = "normal" /\ f.base.t \in {"str", "num", "nan", "inf", "nzero", "bool"} THEN
+             (IF f.base.t = "str" /\ c.v.t = "num" /\ c.v.v >= 0 THEN {}
+              ELSE IF f.base.t = "str" /\ c.v.t = "str" /\ c.v.s = LengthKey THEN {}
+              ELSE IF f.base.t = "str" THEN {"str_index_odd"} ELSE {"prim_member"})
+          ELSE {})
+    \cup (IF f.f \in {"indexB", "setiB"} /\ c.c = "normal" /\ ~IsPrim(c.v) THEN {"key_nonprim"} ELSE {})
+    \cup (IF f.f \in {"try", "catch"} /\ c.c \in {"break", "continue"} THEN {"brk_thru_try"} ELSE {})
+    \cup (IF f.f \in LoopFrames /\ c.c \in {"break", "continue"} /\ LoopInTryInLoop(Tail(k)) THEN {"brk_loop_in_try_in_loop"} ELSE {})
+    \cup (IF f.f = "mcallA" /\ c.c = "normal" /\ c.v.t \in {"str", "num", "nan", "inf", "nzero", "bool"} THEN {"prim_method"} ELSE {})
+    \cup (IF f.f \in {"wbody", "forofB"} /\ c.c \in {"break", "continue"} /\ c.l # "" THEN {"labelled_loop_exit"} ELSE {})
+  ELSE IF ctl.m = "ev" THEN
+    LET d == Nd(ctl.n) IN
+    (IF d.ty = "try" /\ \E i \in 1..Len(k) : k[i].f = "fin" /\ k[i].pend.c # "normal" THEN {"fin_nested_try"} ELSE {})
+    \cup
+    (IF d.ty = "update" /\ FindEnv(heap, env, d.name) # NoEnv THEN
+        LET b == heap[FindEnv(heap, env, d.name)].vars[VarIdx(heap, FindEnv(heap, env, d.name), d.name)] IN
+        IF b.init /\ ~IsNumT(b.v) THEN {"upd_nonnum"} ELSE {}
+     ELSE {})
+  ELSE {}
+
 \* ---------------- the machine
 Init == /\ pi \in 1..Len(Progs)
         /\ heap = <<[k |-> "env", vars |-> <<>>, outer |-> NoEnv]>>
-        /\ env = 1 /\ ctl = Ev(Progs[pi].root) /\ k = <<>> /\ out = <<>> /\ st = "run" /\ steps = 0
+        /\ env = 1 /\ ctl = Ev(Progs[pi].root) /\ k = <<>> /\ out = <<>> /\ feat = {} /\ st = "run" /\ steps = 0
 
 Push(f) == k' = <<f>> \o k
 Same == UNCHANGED <<env, heap, out>>
@@ -222,8 +283,9 @@ StepEv(n) == LET d == Nd(n) IN
               ELSE IF ~b.mut THEN Go(Ret(Throw(Err("TypeError")))) /\ UNCHANGED k /\ Same
               ELSE LET old == ToNumberP(ToPrim(b.v))
                        new == IF d.op = "++" THEN Add(old, N(1)) ELSE Sub(old, N(1)) IN
-                   /\ heap' = SetBinding(heap, e, d.name, new)
-                   /\ Go(RetV(IF d.prefix = 1 THEN new ELSE old)) /\ UNCHANGED <<k, env, out>>
+                   IF new.t = "big" THEN Go(Ret(Abrupt("unmodelled", U, ""))) /\ UNCHANGED k /\ Same
+                   ELSE /\ heap' = SetBinding(heap, e, d.name, new)
+                        /\ Go(RetV(IF d.prefix = 1 THEN new ELSE old)) /\ UNCHANGED <<k, env, out>>
     [] d.ty = "cond" -> Go(Ev(d.a)) /\ Push([f |-> "cond", n |-> n]) /\ Same
     [] d.ty = "func" ->
          /\ heap' = Append(heap, [k |-> "fun", params |-> d.params, body |-> d.body, env |-> env, name |-> d.name, arrow |-> (d.arrow = 1), gen |-> (d.gen = 1)])
@@ -277,7 +339,7 @@ Mine(f, c) == c.l = "" \/ c.l = f.lbl
 StepRet == LET c == ctl.c IN
   IF k = <<>> THEN
      /\ st' = "done"
-     /\ out' = Append(out, IF c.c = "throw" THEN [e |-> "error", v |-> c.v] ELSE IF c.c = "unmodelled" THEN [e |-> "unmodelled", v |-> U] ELSE [e |-> "complete", v |-> c.v])
+     /\ out' = Append(out, IF c.c = "throw" THEN [e |-> "error", v |-> Snap(heap, c.v, 3)] ELSE IF c.c = "unmodelled" THEN [e |-> "unmodelled", v |-> U] ELSE [e |-> "complete", v |-> c.v])
      /\ UNCHANGED <<ctl, k, env, heap>>
   ELSE LET f == Head(k) rest == Tail(k) IN
    /\ UNCHANGED st
@@ -324,22 +386,24 @@ StepRet == LET c == ctl.c IN
                     ELSE IF ~b.mut THEN Go(Ret(Throw(Err("TypeError")))) /\ k' = rest /\ Same
                     ELSE heap' = SetBinding(heap, e, name, v) /\ Go(RetV(v)) /\ k' = rest /\ UNCHANGED <<env, out>>
           [] f.f = "binL" -> Go(Ev(Nd(f.n).b)) /\ k' = <<[f |-> "binR", n |-> f.n, l |-> v]>> \o rest /\ Same
-          [] f.f = "binR" -> Go(RetV(Bin(Nd(f.n).op, f.l, v))) /\ k' = rest /\ Same
+          [] f.f = "binR" -> LET r == Bin(Nd(f.n).op, f.l, v) IN
+                             Go(IF r.t = "big" THEN Ret(Abrupt("unmodelled", U, "")) ELSE RetV(r)) /\ k' = rest /\ Same
           [] f.f = "logical" ->
                LET op == Nd(f.n).op
                    short == CASE op = "&&" -> ~ToBoolean(v) [] op = "||" -> ToBoolean(v) [] op = "??" -> v.t \notin {"undef", "null"} IN
                IF short THEN Go(RetV(v)) /\ k' = rest /\ Same ELSE Go(Ev(Nd(f.n).b)) /\ k' = rest /\ Same
-          [] f.f = "unary" -> Go(RetV(Un(Nd(f.n).op, v))) /\ k' = rest /\ Same
+          [] f.f = "unary" -> LET r == Un(Nd(f.n).op, v) IN
+                              Go(IF r.t = "big" THEN Ret(Abrupt("unmodelled", U, "")) ELSE RetV(r)) /\ k' = rest /\ Same
           [] f.f = "cond" -> Go(Ev(IF ToBoolean(v) THEN Nd(f.n).b ELSE Nd(f.n).c)) /\ k' = rest /\ Same
           [] f.f = "seq" -> IF f.i = Len(f.xs) THEN Go(RetV(v)) /\ k' = rest /\ Same
                             ELSE Go(Ev(f.xs[f.i + 1])) /\ k' = <<[f EXCEPT !.i = f.i + 1]>> \o rest /\ Same
           [] f.f = "discard" -> Go(RetV(U)) /\ k' = rest /\ Same
-          [] f.f = "log" -> out' = Append(out, [e |-> "log", v |-> v]) /\ Go(RetV(U)) /\ k' = rest /\ UNCHANGED <<env, heap>>
+          [] f.f = "log" -> out' = Append(out, [e |-> "log", v |-> Snap(heap, v, 3)]) /\ Go(RetV(U)) /\ k' = rest /\ UNCHANGED <<env, heap>>
           [] f.f = "order" ->
                LET nth == Cardinality({ i \in 1..Len(out) : out[i].e = "order" }) + 1
                    rs == Progs[pi].resp
                    r == IF nth <= Len(rs) THEN rs[nth] ELSE [k |-> "val", v |-> 0] IN
-               /\ out' = Append(out, [e |-> "order", v |-> v])
+               /\ out' = Append(out, [e |-> "order", v |-> Snap(heap, v, 3)])
                /\ Go(IF r.k = "err" THEN Ret(Throw(S(<<84,121,112,101,69,114,114,111,114,58,32,98,111,111,109>>))) ELSE RetV(N(r.v)))
                /\ k' = rest /\ UNCHANGED <<env, heap>>
           [] f.f = "arrlit" ->
@@ -484,8 +548,9 @@ StepRet == LET c == ctl.c IN
                           ELSE Go(Ev(body.xs[1])) /\ k' = <<[f |-> "list", xs |-> body.xs, i |-> 1], [f |-> "callret", e |-> env]>> \o rest
 
 Next == /\ st = "run" /\ steps < MaxSteps /\ steps' = steps + 1 /\ UNCHANGED pi
+        /\ feat' = feat \cup StepFeat
         /\ IF ctl.m = "ev" THEN StepEv(ctl.n) /\ UNCHANGED st ELSE StepRet
 Spec == Init /\ [][Next]_vars
-Report == (st = "done" \/ steps = MaxSteps) => PrintT(<<"R", ToJson([id |-> Progs[pi].id, out |-> out, fin |-> st])>>)
+Report == (st = "done" \/ steps = MaxSteps) => PrintT(<<"R", ToJson([id |-> Progs[pi].id, out |-> out, fin |-> st, feat |-> feat, steps |-> steps])>>)
 NoErr == ~(ctl.m = "ret" /\ ctl.c.c = "throw")
 ====
